@@ -20,6 +20,9 @@ RangeOf(s, a, b) == IF a > b \/ b > Len(s) THEN Panic ELSE Bytes(Sub(s, a, b))  
 RangeFrom(s, a) == IF a > Len(s) THEN Panic ELSE Bytes(Sub(s, a, Len(s)))                      \* a..
 RangeFull(s) == Bytes(s)                                                                      \* ..
 RangeIncl(s, a, b) == IF b = Max THEN Panic ELSE RangeOf(s, a, b + 1)                         \* a..=b
+\* a..=b after it was iterated to its end (the value keeps a hidden "exhausted" state): as an index it is the empty
+\* slice at b+1 - or a panic when b+1 lies beyond the end; an empty range (a > b) iterates nothing and stays what it was
+RangeInclSpent(s, a, b) == IF b = Max \/ a > b THEN RangeIncl(s, a, b) ELSE RangeOf(s, b + 1, b + 1)
 RangeTo(s, b) == IF b > Len(s) THEN Panic ELSE Bytes(Sub(s, 0, b))                             \* ..b
 RangeToIncl(s, b) == IF b = Max THEN Panic ELSE RangeTo(s, b + 1)                              \* ..=b
 TailOf(s, k) == IF k > Len(s) THEN Panic ELSE Bytes(Sub(s, k, Len(s)))
